@@ -162,6 +162,11 @@ def row_words(text, row=15):
         for k, piece in enumerate(text.split("^")):
             out += ([C.pac(row)] if k else []) + row_words(piece, row)
         return out
+    if "\b" in text:
+        out = []
+        for k, piece in enumerate(text.split("\b")):
+            out += ([C.ctrl("BS")] if k else []) + row_words(piece, row)
+        return out
     parts = text.split("~")
     ws = list(C.text_words(parts[0]))
     for part in parts[1:]:
@@ -177,6 +182,9 @@ def cells(t):
     """columns a row occupies.  A mid-row code is one cell; where it is followed by a padding word ('~_') the count is
     exact, otherwise such rows are chosen well above / below 32 and the cell is not counted"""
     t = t.replace("^", "")
+    while "\b" in t:                         # a backspace erases the character before it
+        k = t.index("\b")
+        t = t[:max(k - 1, 0)] + t[k + 1:]
     return len(t.replace("~", "").replace("_", "")) + (t.count("~") if "_" in t else 0)
 
 
@@ -219,6 +227,23 @@ def stream(mode, rowsets, terminated=True, cr=False):
         if terminated:
             lines.append((C.timecode(t), [C.ctrl("RDC")]))
     return C.scc_document(lines)
+
+
+def doubled(doc):
+    """the same stream with every control code sent twice (text words once), as broadcast equipment does"""
+    out = []
+    for line in doc.split("\n"):
+        if "\t" not in line:
+            out.append(line)
+            continue
+        tc, ws = line.split("\t")
+        ws2 = []
+        for w in ws.split():
+            ws2.append(w)
+            if (int(w[:2], 16) & 0x7F) < 0x20 and w != "8080":
+                ws2.append(w)
+        out.append(tc + "\t" + " ".join(ws2))
+    return "\n".join(out)
 
 
 def stream_rows_with_cr(mode, texts):
@@ -304,16 +329,34 @@ def bounded(ctx, b):
                 too = [ln for cap in cs.get_captions("en-US") for ln in cap.get_text().split("\n") if len(ln) > 32]
                 return not too and not longs_, {"returned_silently": too or longs_}
             b.guard(("rows_with_cr", mode, tuple(lens_)), crs, sample={"mode": mode, "row_lengths": lens_, "carriage_return_after_every_row": True})
+    for mode in ("pop", "roll", "paint"):
+        # a backspace takes one character away (single or doubled codes alike): 34 typed - 1 = 33 columns, 33 - 1 = 32
+        cases.append((mode, True, [[(15, ROWS_TEXT[:34] + "\b")]], False, True))
+        cases.append((mode, True, [[(15, ROWS_TEXT[:34] + "\b")]], False, False))
+        cases.append((mode, True, [[(15, ROWS_TEXT[:33] + "\b")]], False, True))
+        cases.append((mode, True, [[(15, ROWS_TEXT[:20] + "\b" + ROWS_TEXT[:14])]], False, True))
+        # a full row followed, on the next row, by a row that opens with a mid-row italics code
+        cases.append((mode, True, [[(14, ROWS_TEXT[:32]), (15, "~" + ROWS_TEXT[:10])]]))
+        cases.append((mode, True, [[(14, ROWS_TEXT[:32]), (15, "~" + ROWS_TEXT[:10])]], False, True))
+        cases.append((mode, True, [[(13, ROWS_TEXT[:31]), (14, "~" + ROWS_TEXT[:31]), (15, ROWS_TEXT[:5])]]))
+        # every structured case once more with doubled control codes
+        cases.append((mode, True, [[(1, ROWS_TEXT[:33]), (5, ROWS_TEXT[:5])]], False, True))
+        cases.append((mode, False, [[(14, ROWS_TEXT[:32])], [(15, ROWS_TEXT[:33])]], False, True))
     for mode, term, sets, *rest in cases:
         cr = bool(rest and rest[0])
+        dbl = bool(len(rest) > 1 and rest[1])
         texts = [t for rows in sets for _, t in rows if t]
         # (a mid-row code's cell may or may not be reproduced: such rows are chosen well above / below 32 either
         # way, and are not looked up by their exact text in the message)
         longs = [t for t in texts if cells(t) > 32]
         named_exactly = [t.replace("^", "") for t in longs if "~" not in t]
 
-        def one(mode=mode, sets=sets, term=term, cr=cr, texts=texts, longs=longs, named_exactly=named_exactly):
+        named_exactly = [t for t in named_exactly if "\b" not in t]
+
+        def one(mode=mode, sets=sets, term=term, cr=cr, dbl=dbl, texts=texts, longs=longs, named_exactly=named_exactly):
             doc = stream(mode, sets, term, cr)
+            if dbl:
+                doc = doubled(doc)
             try:
                 cs = shared.read(doc)
             except CaptionLineLengthError as e:
@@ -327,8 +370,8 @@ def bounded(ctx, b):
             lines = [ln for cap in cs.get_captions("en-US") for ln in cap.get_text().split("\n")]
             too = [ln for ln in lines if len(ln) > 32]
             return not too and not longs, {"returned_silently": too or longs}
-        b.guard((mode, term, tuple(tuple(r) for rows in sets for r in rows), len(sets), cr), one,
-                sample={"mode": mode, "terminated": term, "carriage_returns": cr, "row_lengths": [[len(t) for _, t in rows] for rows in sets]},
+        b.guard((mode, term, tuple(tuple(r) for rows in sets for r in rows), len(sets), cr, dbl), one,
+                sample={"mode": mode, "terminated": term, "carriage_returns": cr, "doubled_control_codes": dbl, "row_lengths": [[len(t) for _, t in rows] for rows in sets]},
                 nontrivial=bool(texts))
 
 
